@@ -44,7 +44,15 @@ type SnapD struct {
 	I uint64   `json:"i"`
 	T uint64   `json:"t"`
 	V []uint64 `json:"v"` // voters; nil = absent
-	D uint64   `json:"d"` // data tag (8 bytes payload), 0 = no data
+	D  uint64  `json:"d"`            // data tag (8 bytes payload unless dl is given), 0 = no data
+	DL int     `json:"dl,omitempty"` // data length (default 8)
+}
+
+func (d *SnapD) dataLen() int {
+	if d.DL > 0 {
+		return d.DL
+	}
+	return 8
 }
 
 type Op struct {
@@ -75,8 +83,17 @@ type Out struct {
 	EarlierConflict bool `json:"ec,omitempty"`
 	// fsave: the failed step as a fault of the Coq model, and what the live store answered right after the failure
 	Fault *FaultObs `json:"fault,omitempty"`
+	// fdel: the failed removal as a fault of the Coq model (Model.delete_fail): I removals were done before the failing one,
+	// Rep = DeleteBefore reported the error, F = first index of the live store right after it
+	DelFault *DelFaultObs `json:"delfault,omitempty"`
 	// bytes: raw contents of the directory (slot records, cell length words, meta records)
 	Raw *RawObs `json:"raw,omitempty"`
+}
+
+type DelFaultObs struct {
+	I   int    `json:"i"`
+	Rep bool   `json:"rep"`
+	F   uint64 `json:"f"`
 }
 
 // RawObs: for entry file number Fi (ordered by first index, files without entries last) the slot records [St, St+N) as bytes
@@ -219,6 +236,7 @@ type world struct {
 	c      *Case
 	fdLeak []*raftlog.RaftDiskStorage
 	fault  *FaultObs // set by faultSave for the op being applied
+	dfault *DelFaultObs
 }
 
 func newWorld(dir string, c *Case) (*world, error) {
@@ -286,7 +304,7 @@ func snapOf(d *SnapD) *raftpb.Snapshot {
 		s.Metadata.ConfState.Voters = append([]uint64{}, d.V...)
 	}
 	if d.D != 0 {
-		s.Data = payload(8, d.D)
+		s.Data = payload(d.dataLen(), d.D)
 	}
 	return s
 }
@@ -298,12 +316,15 @@ func snapD(s raftpb.Snapshot) *SnapD {
 	}
 	if len(s.Data) > 0 {
 		_, d.D = identify(s.Data)
+		if len(s.Data) != 8 {
+			d.DL = len(s.Data)
+		}
 	}
 	return d
 }
 
 func snapEq(a, b *SnapD) bool {
-	if a.I != b.I || a.T != b.T || a.D != b.D || len(a.V) != len(b.V) {
+	if a.I != b.I || a.T != b.T || a.D != b.D || a.dataLen() != b.dataLen() || len(a.V) != len(b.V) {
 		return false
 	}
 	for i := range a.V {
@@ -407,7 +428,7 @@ func (w *world) apply(op *Op) (o Out) {
 		}
 		var data []byte
 		if op.Snap.D != 0 {
-			data = payload(8, op.Snap.D)
+			data = payload(op.Snap.dataLen(), op.Snap.D)
 		}
 		mf, ml := msFirstLast(w.ms)
 		switch op.K {
@@ -445,7 +466,9 @@ func (w *world) apply(op *Op) (o Out) {
 		if op.K == "del" {
 			err = w.ds.DeleteBefore(op.I)
 		} else {
+			w.dfault = nil
 			err = w.delOp(op)
+			o.DelFault, w.dfault = w.dfault, nil
 		}
 		if err != nil {
 			o.E = 9
@@ -604,7 +627,7 @@ func runCase(kind string, src source) *Case {
 	}
 	// at the end of every case: a clean restart (leftovers of failed steps are removed by Init), then the raw bytes of
 	// the directory for the byte layer of the model
-	if len(c.Oracle) == 0 {
+	if len(c.Oracle) == 0 && (kind != "small" || c.Case%3 == 0) {
 		for _, k := range []string{"reopen", "bytes"} {
 			op := &Op{K: k}
 			c.Ops = append(c.Ops, *op)
@@ -661,6 +684,19 @@ func main() {
 			panic(err)
 		}
 		gen.Emit(runCase("replay:"+in.Kind, fromList(in.Ops)))
+	case "conc":
+		// c17 conc <cases> <entries per case>: concurrent writer / compactor / readers on one store (binary built with -race)
+		nc, tot := 1, 33000
+		if len(os.Args) > 2 {
+			nc, _ = strconv.Atoi(os.Args[2])
+		}
+		if len(os.Args) > 3 {
+			tot, _ = strconv.Atoi(os.Args[3])
+		}
+		r := gen.FromEnv(1717)
+		for i := 0; i < nc; i++ {
+			gen.Emit(concCase(2000+i, r.Fork(), uint64(tot)))
+		}
 	case "gen":
 		n := [3]int{}
 		for i := 0; i < 3 && i+2 < len(os.Args); i++ {
@@ -822,11 +858,11 @@ func readRaw(dir string) (*RawObs, error) {
 			return nil
 		}
 		head := live + 2
-		if head > 10 {
-			head = 10
+		if head > 6 {
+			head = 6
 		}
 		err = win(0, head)
-		if err == nil && live > 10 {
+		if err == nil && live > 6 {
 			err = win(live-5, 7)
 		}
 		f.Close()
